@@ -179,9 +179,11 @@ def modelParse (cfg : String) (inp : List String) : Option (List String × List 
     let (a, b) := splitBar chunks
     let (c1, _) ← runChunks fresh a
     let regs := c1.regs.regs
-    let (c1, q) := drainQueue c1
-    let c1 := seed { c1 with position := 0 } q regs
+    -- context 1 is left as A left it (pending tail dropped); context 2 is fresh with A's registers and queue content only
+    let (_, q) := drainQueue c1
+    let c1 := { c1 with position := 0, events := [] }
     let c2 := seed fresh q regs
+    let c2 := { c2 with cmdError := fresh.cmdError }
     let (d1, e1) ← runChunks c1 b
     let (d2, e2) ← runChunks c2 b
     pure (e1 ++ finishStr d1 ++ ["||"] ++ e2 ++ finishStr d2, cmds)
